@@ -504,7 +504,7 @@ class ThreadPool(object):
                         # (a callable object or a partial has no __name__)
                         self._logger.exception(
                             "Error executing %s: %s",
-                            getattr(method, "__name__", repr(method)),
+                            getattr(method, "__name__", method),
                             ex,
                         )
                     finally:
